@@ -3,7 +3,7 @@
 # budget), in a scratch worktree so /repo is never touched. Prints one line per (change, check).
 #   tools/regress_seeded.sh [budget, default 25s] [id-prefix filter]
 set -u
-export GOFLAGS=-mod=mod GOPROXY=off GOSUMDB=off GOTOOLCHAIN=local
+export GOFLAGS=-mod=mod GOPROXY=off GOSUMDB=off GOTOOLCHAIN=local VERIF_FAST=1
 VERIF="$(cd "$(dirname "$0")/.." && pwd)"
 BUDGET="${1:-25s}"; FILTER="${2:-}"
 WT="$(mktemp -d /tmp/regress-wt.XXXX)"; rmdir "$WT"
